@@ -226,14 +226,22 @@ m("C03", "other",
   "liveness claim for arbitrary <= K fault schedules (recovery within the limits) is NOT a theorem: it is "
   "explored on implementation and model — exhaustively for every schedule of one or two dropped PDUs per "
   "configuration, sampled for <= 3 mixed faults.",
+  "ANY LOSS PATTERN OF FILE DATA PDUs, receiver side (deferred NAK mode): RecvG/WaitG with the grid invariant "
+  "TInv of C06; whole state_machine calls for a File Data PDU of any tile in any history (C03_tile_any, "
+  "C03_receiver_any_history), the EOF (C03_eof_any), the deferred start (C03_deferred_any: the NAK sequence "
+  "requests exactly the undelivered bytes), retransmitted tiles in any order (C03_resent_tile_any, "
+  "C03_wait_any_history) and the one that delivers the last missing byte (C03_last_resent_tile_any, "
+  "C03_last_tile_completes); composed in C03_receiver_recovers_any_loss; the sender's answers to grid-aligned "
+  "requests are exactly those tiles (C03_answer_is_tiles). "
   "Lean 4 theorems (recovery mechanisms for all states; whole-run recovery from one loss by forward simulation "
   "+ list lemmas on the file with a hole) + exhaustive <=2-drop and sampled fault-schedule exploration "
   "(general liveness not proved)", "§6 C03, §11",
   ["liveness under an adversarial link with K > 1 faults / duplication / reordering is explored, not proved "
    "(DESIGN.md §6 C03 stage 4); the proved recovery runs are for one lost File Data PDU (deferred NAK mode), a lost EOF, ACK (EOF), "
    "Finished, ACK (Finished), NAK (any number below the limit) or retransmitted PDU, one PDU per call, and for a lost Metadata "
-   "PDU (deferred mode); duplication/reordering beyond idempotent writes, several lost File Data PDUs at once "
-   "and immediate-mode losses other than one File Data PDU are exploration-level"])
+   "PDU (deferred mode), and - receiver side - for any loss/duplication/reordering pattern of File Data PDUs with the "
+   "control PDUs delivered (deferred mode); combinations of several lost control PDUs, and immediate-mode losses other "
+   "than one File Data PDU, are exploration-level"])
 m("C04", "proof",
   "silent-peer scenarios for the three retry procedures with limits 1..4 and intervals 500..2000 ms: calls "
   "one ms before each expiry (nothing may happen), exactly at it; the awaited ACK after j < N expiries; exact "
